@@ -987,6 +987,13 @@ class Interp:
                 nd_ = len(shp) if isinstance(shp, (tuple, list)) else (1 if isinstance(shp, (int, Sym)) and not (isinstance(shp, Sym) and shp.length) else (shp.length if isinstance(shp, Sym) else None))
                 return Sym('%s(%s)' % (nm, ', '.join([show(a) for a in args] + ['%s=%s' % (k, show(v)) for k, v in kwargs.items()])), attrs={'__ndim__': nd_},
                            struct=('call', nm, tuple(args), dict(kwargs), f))
+            if nm in ('itertools.product', 'itertools.combinations', 'itertools.combinations_with_replacement', 'itertools.permutations', 'itertools.chain') and \
+                    all(isinstance(a, (list, tuple, range, int)) for a in args) and all(isinstance(v_, int) for v_ in kwargs.values()):
+                import itertools as _it
+                try:
+                    return [tuple(x) if isinstance(x, tuple) else x for x in getattr(_it, nm.split('.')[1])(*args, **kwargs)]
+                except TypeError:
+                    raise Raised('TypeError')
             if nm == 'itertools.count' and len(args) <= 2 and all(isinstance(a, int) for a in args):
                 return _Counter(*(list(args) + [0, 1][len(args):]))
             if nm in _OPERATOR and len(args) == 2 and not kwargs:
